@@ -50,11 +50,16 @@ def St.shape (s : St) : List Nat × Nat × Nat := (s.stacks.map List.length, s.p
 /-- a fresh object in a fresh Data -/
 def St.allocV (s : St) (v : Val) (const : Bool := false) (ret : Bool := false) : Loc × St :=
   (s.heap.length, { s with heap := s.heap ++ [⟨s.objs.length, const, ret⟩], objs := s.objs ++ [v] })
-def St.cell (s : St) (l : Loc) : Cell := s.heap.getD l default
+/-- (a location outside the heap reads as a const, non-temporary handle: nothing can be written through it) -/
+def St.cell (s : St) (l : Loc) : Cell := s.heap.getD l ⟨0, true, false⟩
 def St.val (s : St) (l : Loc) : Val := s.objs.getD (s.cell l).obj .undef
 def St.setCell (s : St) (l : Loc) (c : Cell) : St := { s with heap := s.heap.set l c }
 /-- write into the object a Data points to (seen through every Data that points to it) -/
 def St.setVal (s : St) (l : Loc) (v : Val) : St := { s with objs := s.objs.set (s.cell l).obj v }
+
+/-- read / write an object directly (the optimized counting loop holds a C++ reference to its counter object) -/
+def St.objAt (s : St) (o : Nat) : Val := s.objs.getD o .undef
+def St.setObj (s : St) (o : Nat) (v : Val) : St := { s with objs := s.objs.set o v }
 
 /-! ### Stack_Holder operations (dispatchkit.hpp) -/
 
